@@ -42,14 +42,23 @@ def compileOp (j : Json) : R Json := do
     let v := validate gs s.qc.numQubits s.qc.qmap inputs defs rets
     let c := validateClean gs s.qc.numQubits nIn outs
     let wf := wellFormed gs s.qc.numQubits
+    let xorGen : Bool := match rets, outs with
+      | [_], [q] => unc && inGeneralXor inputs defs rets && decide (nIn ≤ q) && retNeverControl gs q
+      | _, _ => false
     let extra : List (String × Json) := [("valid", toJson v), ("clean", toJson c), ("wellformed", toJson wf),
-      ("in_fragment", toJson (inAnyFragment inputs defs rets unc)),
+      ("in_fragment", toJson (inAnyFragment inputs defs rets unc || inGeneralClass inputs defs rets)),
+      ("in_general", toJson (inGeneralClass inputs defs rets)),
+      ("in_general_only", toJson (inGeneralClass inputs defs rets && !(inAnyFragment inputs defs rets unc))),
       ("in_fragment_old", toJson (inFragment inputs defs rets)),
       ("in_fragment_const", toJson (inFragmentConst inputs defs rets)),
       ("in_fragment_multi", toJson (!unc && inFragmentMulti inputs defs rets)),
       ("in_fragment_named", toJson (!unc && inFragmentNamed inputs defs rets)),
-      ("in_clean_fragment", toJson (unc && inCleanFragment inputs defs rets)),
-      ("in_xor_fragment", toJson (unc && inXorFragment inputs defs rets))]
+      ("in_clean_fragment", toJson (unc && inGeneralCleanClass inputs defs rets)),
+      ("in_clean_general", toJson (unc && inGeneralClean inputs defs rets)),
+      ("in_clean_general_only", toJson (unc && inGeneralClean inputs defs rets && !inCleanFragment inputs defs rets)),
+      ("in_xor_fragment", toJson ((unc && inXorFragment inputs defs rets) || xorGen)),
+      ("in_xor_general", toJson xorGen),
+      ("in_xor_general_only", toJson (xorGen && !inXorFragment inputs defs rets))]
     let xorPart : List (String × Json) :=
       match rets, outs with
       | [r], [q] =>
